@@ -454,8 +454,17 @@ type FuncSpec struct {
 	Partial  bool // the contract makes no frame claim: no frame obligations, callers havoc the may-write set
 	LockHeld bool // called with the guarding mutex held (lock discipline)
 	Ghosts   []*GhostCount
+	// CallSites: predicates over the arguments of the calls this function makes to a named callee ("callsite NAME: expr";
+	// inside expr the callee's parameters are written arg.<param>, everything else is the caller's state at the call)
+	CallSites []*CallSiteSpec
 	Props    []string
 	File     string
+}
+
+type CallSiteSpec struct {
+	Callee string
+	Clause *Clause
+	Seen   bool
 }
 
 // GhostCount: cnt(j) = number of indices i < j for which Body(i) holds (Body evaluated in the entry state)
@@ -515,6 +524,7 @@ type specFun struct {
 
 var declFunRe = regexp.MustCompile(`^\(declare-fun\s+(\S+)\s+\((.*)\)\s+(\(.*\)|\S+)\s*\)$`)
 var guardedRe = regexp.MustCompile(`^guarded\s+([A-Za-z_][A-Za-z0-9_]*)\.([A-Za-z_][A-Za-z0-9_]*)\s*:\s*(.*)$`)
+var callsiteHead = regexp.MustCompile(`^callsite(\[[A-Za-z0-9_,. ]+\])?\s+(.+?):\s+(.*)$`)
 var clauseHead = regexp.MustCompile(`^(requires|bodyensures|ensures|modifies|invariant|decreases|aborts)(\[[A-Za-z0-9_,. ]+\])?\s+(.*)$`)
 var funcHead = regexp.MustCompile(`^func\s+(\S+)\s*$`)
 var predHead = regexp.MustCompile(`^pred\s+([A-Za-z_][A-Za-z0-9_]*)\s*\(([^)]*)\)\s*:=\s*(.*)$`)
@@ -574,7 +584,7 @@ func (db *SpecDB) loadContractFile(path, pkgPath string) error {
 	var items []string
 	isHead := func(t string) bool {
 		return clauseHead.MatchString(t) || strings.HasPrefix(t, "func ") || strings.HasPrefix(t, "pred ") || loopHead.MatchString(t) ||
-			strings.HasPrefix(t, "lemma") || t == "pure" || t == "inline" || t == "assumed" || t == "nopanic" || t == "maypanic" || t == "lockheld" || t == "partial" || strings.HasPrefix(t, "props ") || strings.HasPrefix(t, "smt ") || strings.HasPrefix(t, "global ") || strings.HasPrefix(t, "guarded ") || strings.HasPrefix(t, "ghostcount ")
+			strings.HasPrefix(t, "lemma") || t == "pure" || t == "inline" || t == "assumed" || t == "nopanic" || t == "maypanic" || t == "lockheld" || t == "partial" || strings.HasPrefix(t, "props ") || strings.HasPrefix(t, "smt ") || strings.HasPrefix(t, "global ") || strings.HasPrefix(t, "guarded ") || strings.HasPrefix(t, "ghostcount ") || callsiteHead.MatchString(t)
 	}
 	for _, l := range lines {
 		t := strings.TrimSpace(l)
@@ -685,6 +695,16 @@ func (db *SpecDB) loadContractFile(path, pkgPath string) error {
 			case "partial":
 				cur.Partial = true
 			}
+		case callsiteHead.MatchString(it):
+			if cur == nil {
+				return fmt.Errorf("%s: callsite outside func: %s", path, it)
+			}
+			m := callsiteHead.FindStringSubmatch(it)
+			n, err := parseSpecExpr(m[3])
+			if err != nil {
+				return fmt.Errorf("%s: %s: %v", path, it, err)
+			}
+			cur.CallSites = append(cur.CallSites, &CallSiteSpec{Callee: strings.TrimSpace(m[2]), Clause: &Clause{Kind: "callsite", Tags: parseTags(m[1]), Src: m[3], Expr: n, Ord: len(cur.CallSites) + 1}})
 		case strings.HasPrefix(it, "props "):
 			if cur != nil {
 				cur.Props = parseTags(strings.TrimSpace(it[6:]))
